@@ -609,7 +609,55 @@ def muldiv_flag_rule(ctx, chk, tabs):
                     if d.aff is not None:
                         have = ("zero" if truth else "nonzero", d.aff.sub(Lin(arm)).simplify(ranges))
                 if have is None:
-                    chk.undecided_("C03.R12", u, "the branch condition has no closed form")
+                    # the condition may go through a helper that branches on an operand's sign (`upper != sign_word(x)`): partition
+                    # the run on the sign bits of the operands; in each partition the helper's branch is decided and the condition
+                    # has a closed form, which is compared with the manual's on the boundary operands of that partition
+                    sign_bits = [("ax", 15), ("ax", 7), (s.arg_names[0], w - 1)]
+                    verdict = None
+                    for combo in itertools.product((0, 1), repeat=len(sign_bits)):
+                        asm = dict(zip(sign_bits, combo))
+                        try:
+                            s2 = summarize_fn(ctx, fn, record_switch=True, assume=asm)
+                        except Unsupported:
+                            verdict = "undecided"
+                            break
+                        c2 = branch_flag_conditions(ctx, fn, s2).get(FBIT[f])
+                        if c2 is None:
+                            verdict = "undecided"
+                            break
+                        d2, truth2, arm2 = c2
+                        r2 = s2.I.atom_ranges()
+                        if arm2 is None:
+                            h2 = _norm_pred(d2, r2)
+                            if h2 is not None and not truth2:
+                                h2 = _negate(h2)
+                        else:
+                            h2 = ("zero" if truth2 else "nonzero", d2.aff.sub(Lin(arm2)).simplify(r2)) if d2.aff is not None else None
+                        if h2 is None:
+                            verdict = "undecided"
+                            break
+                        atoms = sorted(_pred_atoms(h2) | p.atoms())
+                        cand = []
+                        for at in atoms:
+                            lo, hi = r2.get(at, (0, 0xFFFF))
+                            pts = {lo, hi, lo + 1, hi - 1, 2, 3, 5, 15, 16, 17, 127, 128, 129, 181, 182, 255, 256, 257, 0x7FFF, 0x8000, 0x8001, 0xFF00, 0xFF80, 0xFFFB, 0xFFFD, 0xFFFE}
+                            cand.append(sorted(q for q in pts if lo <= q <= hi and all(((q >> b_) & 1) == v_ for (a_n, b_), v_ in asm.items() if a_n == at)))
+                        for vals in itertools.product(*cand):
+                            env = dict(zip(atoms, vals))
+                            if _eval_pred(h2, env) != spec(env):
+                                verdict = (h2, env)
+                                break
+                        if verdict is not None:
+                            break
+                    if isinstance(verdict, tuple):
+                        h2, wit = verdict
+                        text = (f"{f} after {m.upper()} is set iff [{_pred_show(h2)}] when the operands' sign bits are {dict((f'{a}[{b}]', v) for (a, b), v in asm.items())}; the manual sets it iff the "
+                                f"upper half of the product is significant. For " + ", ".join(f"{k}={hex(v_)}" for k, v_ in sorted(wit.items())) +
+                                f" the helper gives {int(_eval_pred(h2, wit))}, the manual {int(spec(wit))}")
+                        chk.violation("C03.R12", unit, f"{f}-condition", f"{fn['name']}: {text}", where, witness=text)
+                    else:
+                        chk.undecided_("C03.R12", u, "the branch condition has no closed form" + (" in some sign partition" if verdict == "undecided" else
+                                       "; in every partition on the operands' sign bits it agrees with the manual's condition on the boundary operands"))
                     continue
                 if want is not None and (have == want or repr(have) == repr(want)):
                     chk.ok("C03.R12", u, _pred_show(have))
